@@ -97,7 +97,7 @@ theorem rect_step (s : Heap) (op : Op) (hs : HeapRect s) : HeapRect (step s op).
   | mask dst h m =>
     simp only [step]
     split
-    · exact hs.bind dst fun t' ht' => getMask_rect ht'
+    · exact hs.bind dst fun t' ht' => getMask_rect (getMaskC_ok ht')
     · exact hs
   | take dst h is =>
     simp only [step]
@@ -248,7 +248,7 @@ theorem nodup_step (s : Heap) (op : Op) (hs : HeapNodup s) : HeapNodup (step s o
     simp only [step]
     split
     · rename_i t ht
-      exact hs.bind dst fun t' ht' => by rw [getMask_cols ht']; exact hs.get ht
+      exact hs.bind dst fun t' ht' => by rw [getMask_cols (getMaskC_ok ht')]; exact hs.get ht
     · exact hs
   | take dst h is =>
     simp only [step]
@@ -1130,7 +1130,7 @@ theorem absStep_step (s : Heap) (op : Op) (hs : HeapRect s) :
     simp only [step, specStep, List.getElem?_map]
     cases ht : s[h]? with
     | none => rfl
-    | some t => exact absStep_bind' s dst (abs_getMask m)
+    | some t => exact absStep_bind' s dst (abs_getMaskC t m)
   | take dst h is =>
     simp only [step, specStep, List.getElem?_map]
     cases ht : s[h]? with
@@ -1608,8 +1608,48 @@ example : abs (tbl.relabel ⟨Option.none, [("a", "k"), ("b", "k")]⟩) = ⟨["k
 /-! ### review round 2 (1): masks against a reading that does not share `zipper` with the code
 
 `Recs.getMask` is written with `zipper2` and so inherits the broadcasting of `_zip.py` from the code;
-`abs_getMask` therefore says nothing independent about it.  `Recs.getMaskPlain`
-(PygModel/TableSpecPlain.lean) is zip + filter, a single flag for all records, otherwise `ValueError`. -/
+`abs_getMask` therefore says nothing independent about it.  `Recs.getMaskPlain` (PygModel/TableSpec.lean) is
+zip + filter, a single flag for all records, otherwise `ValueError`.
+
+Since the repair of `dictable.__getitem__` (defect C01-M1: a mask must have one flag per row or be a single
+flag) the history machine runs the CHECKED mask `Table.getMaskC` and the reference machine `specStep` runs
+`Recs.getMaskPlain` itself, so `abs_step` relates masks to the plain reading for every table and every mask
+(`mask_plain`).  `abs_getMask_plain`, `mask_plain_exact` and `mask_one_row_repeats` below are about the inner
+helper `Table.getMask` (the `zipper` comprehension alone, which `inc`/`exc` call with masks of the table's
+length): they say exactly where that helper leaves the plain reading, i.e. what the added length check is for. -/
+
+/-- **masking is the plain list-of-records mask - every table, every mask** (no side condition): keep the
+flagged records in order, all columns; a single flag keeps all or none; any other length is a `ValueError` -/
+theorem mask_plain (t : Table) (m : List Bool) : (t.getMaskC m).map abs = (abs t).getMaskPlain m :=
+  abs_getMaskC t m
+
+/-- a mask never invents rows: the records of `d[mask]` are a sub-sequence of the table's records, with the
+table's columns (this is what failed for a one-row table before the repair) -/
+theorem mask_sublist (t t' : Table) (m : List Bool) (h : t.getMaskC m = .ok t') :
+    (abs t').rows.Sublist (abs t).rows ∧ (abs t').cols = (abs t).cols := by
+  have hp := mask_plain t m
+  rw [h] at hp
+  simp only [Except.map] at hp
+  unfold Recs.getMaskPlain at hp
+  split at hp
+  · rename_i hl
+    rw [Except.ok.inj hp]
+    refine ⟨(List.filter_sublist.map _).trans ?_, rfl⟩
+    rw [List.map_fst_zip (by omega)]
+    exact List.Sublist.refl _
+  · split at hp
+    · rw [Except.ok.inj hp]
+      refine ⟨?_, rfl⟩
+      simp only
+      split
+      · exact List.Sublist.refl _
+      · exact List.nil_sublist _
+    · cases hp
+
+/-- the one-row table of `mask_one_row_repeats` on the machine: the longer mask is now rejected, the heap
+(all live tables) stays as it was -/
+example : step [[("a", [.int 1]), ("b", [.str "q"])]] (.mask 1 0 [true, true, false, true]) =
+    ([[("a", [.int 1]), ("b", [.str "q"])]], .err .value) := by rfl
 
 /-- **`d[mask]` is the plain zip+filter of the records** (all columns kept, error cases included) for every
 table and every mask EXCEPT a table with exactly one record under a mask that is not a single flag.
@@ -1647,12 +1687,13 @@ theorem mask_plain_exact (t : Table) (m : List Bool) (hn : (abs t).rows.length =
   | ok t' => exact ⟨t', rfl⟩
   | error e => rw [hg] at this; cases this
 
-/-- **deviation from the plain list-of-records reading** (observed on the code, kept in the model):
-a table with exactly ONE row under a mask of k >= 2 flags is NOT a `ValueError` — which is what the plain
-reading `Recs.getMaskPlain` gives (second conjunct) — but that row repeated once per `True` flag, all
-columns kept (also when no flag is `True`: then no record).  `zipper(list(self), mask)` broadcasts the
-length-1 list of rows (`_zip.py:38-72`); real code: `dictable(a=[1],b=['q'])[[True,True,False,True]]` has
-3 rows. -/
+/-- **deviation of the unchecked helper from the plain list-of-records reading** (defect C01-M1 of the
+unrepaired code, where `__getitem__` had no length check): a table with exactly ONE row under a mask of
+k >= 2 flags is NOT a `ValueError` — which is what the plain reading `Recs.getMaskPlain` gives (second
+conjunct) — but that row repeated once per `True` flag, all columns kept (also when no flag is `True`: then
+no record).  `zipper(list(self), mask)` broadcasts the length-1 list of rows (`_zip.py:38-72`); the
+unrepaired code returned 3 rows for `dictable(a=[1],b=['q'])[[True,True,False,True]]`.  The repaired
+`__getitem__` (model: `getMaskC`, theorem `mask_plain`) rejects the mask before the comprehension runs. -/
 theorem mask_one_row_repeats (t : Table) (hr : t.Rect 1) (hne : t ≠ []) (m : List Bool) (hk : 2 ≤ m.length) :
     (abs t).rows = [t.row 0] ∧
     (t.getMask m).map abs = .ok ⟨t.cols, List.replicate (m.count true) (t.row 0)⟩ ∧
